@@ -82,12 +82,9 @@ func validateDecimal64String(s string, fractionDigitsAllowed int) error {
 
 	sSplit := strings.Split(s, ".")
 	if len(sSplit) == 1 {
-		_, err := strconv.ParseInt(sSplit[0], 10, 64)
-		if err != nil {
-			return newValidateDecimal64Error(
-				fmt.Sprintf("Error parsing digits: %s", err))
-		}
-		return nil
+		// A value written without a decimal point has the same bounds as
+		// one written with it
+		sSplit = append(sSplit, "0")
 	}
 	if len(sSplit) > 2 {
 		return newValidateDecimal64Error(errorStringExcessDecimalPoint)
